@@ -1166,11 +1166,11 @@ func runBeyond(c Case) Result {
 		return Result{Obs: "?bad-args", Sig: ""}
 	}
 	obs, oracle, ss := runHistoryGuarded(nick, user, evs)
-	if ss == nil {
+	if ss == nil || obs == "WEDGED" || obs == "NOPONG" { // Stop could block on a leaked lock
 		return Result{Obs: obs, Oracle: oracle, Sig: "beyond"}
 	}
 	defer ss.Stop()
-	if oracle != "" || obs == "PANIC" || obs == "WEDGED" || obs == "NOPONG" {
+	if oracle != "" || obs == "PANIC" {
 		return Result{Obs: obs, Oracle: oracle, Sig: "beyond"}
 	}
 	g := GetterDump(ss.C)
@@ -1192,12 +1192,12 @@ func runConformant(c Case) Result {
 		return Result{Obs: "?bad-args", Sig: ""}
 	}
 	obs, oracle, ss := runHistoryGuarded(nick, user, evs)
-	if ss == nil {
+	if ss == nil || obs == "WEDGED" || obs == "NOPONG" { // Stop could block on a leaked lock
 		return Result{Obs: obs, Oracle: oracle, Sig: "wedged"}
 	}
 	defer ss.Stop()
 	sig := conformantSig(evs, obs)
-	if oracle != "" || obs == "PANIC" || obs == "WEDGED" || obs == "NOPONG" {
+	if oracle != "" || obs == "PANIC" {
 		return Result{Obs: obs, Oracle: oracle, Sig: sig}
 	}
 	g := GetterDump(ss.C)
